@@ -362,6 +362,11 @@ func c06Cases(quick bool) []*c06Case {
 	add("layout/shared-method", "@start s = a B\na = A | C\n", base+okS, nil, true, 1)
 	add("layout/shared-method-interface", "@start s = a B | c B\na = A\nc = C\n", base+"func (p *parser) on_c(_ Token) *S { return thePtr }\n\nfunc (p *parser) on_s(x I, _ Token) int { return 1 }\n", nil, true, 0)
 	add("layout/two-methods-by-suffix", "@start s = a B | B\na = A\n", base+okS+"\nfunc (p *parser) on_s__b(_ Token) int { return 2 }\n", nil, true, 1)
+	// everything after the FIRST double underscore of a method name is a free suffix
+	add("layout/suffix-with-double-underscore", "@start s = a B | B\na = A\n", base+okS+"\nfunc (p *parser) on_s__b__extra(_ Token) int { return 2 }\n", nil, true, 1)
+	add("layout/suffix-with-two-double-underscores", "@start s = a B | B\na = A\n", base+strings.Replace(okS, "on_s(", "on_s__x__y__z(", 1)+"\nfunc (p *parser) on_s__b__(_ Token) int { return 2 }\n", nil, true, 1)
+	add("layout/suffix-triple-underscore", "@start s = a B | B\na = A\n", base+okS+"\nfunc (p *parser) on_s___1(_ Token) int { return 2 }\n", nil, true, 1)
+	add("layout/rule-with-underscore-and-suffix", "@start s = a_x B | B\na_x = A\n", strings.Replace(base, "on_a(", "on_a_x__first__alt(", 1)+okS+"\nfunc (p *parser) on_s__b(_ Token) int { return 2 }\n", nil, true, 1)
 	add("layout/production-without-method", "@start s = a B | B\na = A\n", base+okS, nil, false, 0, "lox:| B")
 	add("layout/rule-without-methods", "@start s = a B\na = A\n", okS, nil, false, 0, "lox:a = A")
 	add("layout/two-methods-match", "@start s = a B\na = A\n", base+okS+"\nfunc (p *parser) on_s__again(x any, _ Token) int { return 2 }\n", nil, false, 0, "lox:@start s = a B", "go:on_s(", "go:on_s__again(")
